@@ -235,6 +235,10 @@ type ClientConn struct {
 	peerMaxHeaderListSize uint64
 	initialWindowSize     uint32
 
+	// streamRecvWindow is the SETTINGS_INITIAL_WINDOW_SIZE we announced to
+	// the peer: the initial inflow of every stream.
+	streamRecvWindow int32
+
 	// reqHeaderMu is a 1-element semaphore channel controlling access to sending new requests.
 	// Write to reqHeaderMu to lock it, read from it to unlock.
 	// Lock reqmu BEFORE mu or wmu.
@@ -708,6 +712,7 @@ func (t *Transport) newClientConn(c net.Conn, singleUse bool) (*ClientConn, erro
 		streams:               make(map[uint32]*clientStream),
 		singleUse:             singleUse,
 		wantSettingsAck:       true,
+		streamRecvWindow:      transportDefaultStreamFlow,
 		pings:                 make(map[[8]byte]chan struct{}),
 		reqHeaderMu:           make(chan struct{}, 1),
 	}
@@ -718,8 +723,19 @@ func (t *Transport) newClientConn(c net.Conn, singleUse bool) (*ClientConn, erro
 	cc.cond = sync.NewCond(&cc.mu)
 
 	var headerTableSize uint32 = initialHeaderTableSize
+	if len(t.Settings) > 0 {
+		// Custom SETTINGS frame: unless it carries SETTINGS_INITIAL_WINDOW_SIZE
+		// the peer assumes the protocol default.
+		cc.streamRecvWindow = initialWindowSize
+	}
 	for _, setting := range t.Settings {
 		switch setting.ID {
+		case http2.SettingInitialWindowSize:
+			// The stream-level receive window we announce; per-stream inflow
+			// accounting must start from the same value.
+			if setting.Val <= math.MaxInt32 {
+				cc.streamRecvWindow = int32(setting.Val)
+			}
 		case http2.SettingMaxHeaderListSize:
 			t.MaxHeaderListSize = setting.Val
 		case http2.SettingHeaderTableSize:
@@ -2206,7 +2222,7 @@ type resAndError struct {
 func (cc *ClientConn) addStreamLocked(cs *clientStream) {
 	cs.flow.add(int32(cc.initialWindowSize))
 	cs.flow.setConnFlow(&cc.flow)
-	cs.inflow.init(transportDefaultStreamFlow)
+	cs.inflow.init(cc.streamRecvWindow)
 	cs.ID = cc.nextStreamID
 	cc.nextStreamID += 2
 	cc.streams[cs.ID] = cs
